@@ -158,7 +158,10 @@ def _non_negative(e, defs, depth=0) -> bool:
 
 
 def reject_two_sided(ctx, vf):
+    from ..inline import with_inlined
+
     res = ctx.res
+    vf = with_inlined(ctx.repo, vf)  # per-element checks may live in a private helper
     defs = {}
     for s in own_scope_nodes(vf.node):
         if isinstance(s, ast.Assign) and len(s.targets) == 1 and isinstance(s.targets[0], ast.Name):
